@@ -16,6 +16,12 @@ def claim(pid, technique, text, design_ref):
 claim("C17", "guarded-by lock analysis + CFG edge-dominance + path enumeration over dns/resolver.py cache classes",
       "Decides structurally (for every access/path in the source): R-17.1 every access to data/statistics/next_cleaning/sentinel and every call of a lock-free helper sits in the single `with self.lock` block of its public method (one mutex + one critical section per operation => every concurrent history is equivalent to the lock-acquisition order); R-17.2 a cached entry is returned only on the not-expired side of an `expiration <= now` test on that same entry with the clock read under the lock; R-17.3 exactly one of hits/misses per path through get(), hits iff a value is returned; R-17.4 the LRU insert is dominated by the exit of `while len(data) >= max_size`, the victim is the ring end opposite to link_after(sentinel), dict and ring updates are paired, hits move to the front. Does NOT decide: conformance of whole get/put/flush histories (ring arithmetic over sequences), or that shrinking max_size evicts immediately.",
       "DESIGN.md section 3, C17")
+claim("C12", "guarded-by analysis over the whole package + *_unlocked call-site convention + no-blocking-under-lock closure + CFG (post)dominance on writer()/_end_write_unlocked",
+      "Decides the lock-discipline preconditions of writer serialisation in dns/versioned.py: R-12.1 the six admission/retention fields are touched only under _version_lock, in *_unlocked methods or in __init__ (4 reasoned owner-only exceptions) and *_unlocked methods are called only with the lock held; R-12.2 nothing blocking (Event.wait, sleep, deferred _setup_version) runs under the lock, transitively; R-12.3 the write slot is taken only under `_write_txn is None and event == _write_event`, every write end clears it and reaches the wake-up, waiters use append/popleft only, the waiter waits on its own event outside the lock; R-12.4 commit publishes and ends the write in one lock hold; R-12.5 every exceptional exit of writer() after admission ends the write. Does NOT decide FIFO admission, absence of lost wake-ups or deadlock over all interleavings, nor serial equivalence: that is a schedule-space argument and these rules are only its preconditions.",
+      "DESIGN.md section 3, C12")
+claim("C10", "typestate by CFG dominance with self-call summaries + sanitiser-before-sink taint (reaching definitions) + node-ownership analysis + exit-shape rules",
+      "Decides structurally: R-10.1 every public Transaction method (all subclasses) passes _check_ended() before any low-level hook and _check_read_only() before any mutating hook, and put/delete hooks are reached only through the _checked_* wrappers; R-10.2 every key used with self.nodes/changed/delegations in Version, WritableVersion and the btreezone subclass is the result of _validate_name/_maybe_cow_with_name or comes from the map itself (reaching definitions; raw parameters are tainted); R-10.3 node mutators run only on nodes obtained by copy-on-write / fresh / already-in-changed, zone.nodes is replaced only at commit, the writable version copies the map; R-10.4 __exit__ commits iff no exception else rolls back and never swallows, _end sets _ended on every exit, _end_transaction ends exactly once and publishes only on commit; R-10.5 base and btreezone put/delete/delete_node/_maybe_cow_with_name keep the same obligations. Does NOT decide conformance of operation sequences to a reference model (TTL merge, singleton rules, serial arithmetic) or atomicity at arbitrary abort points beyond these exits.",
+      "DESIGN.md section 3, C10")
 # CLAIMS-END
 
 NA_REASON = {}
